@@ -221,11 +221,13 @@ def verify_guard(f, s, entry):
         return True, ""
     if "cond" in g:
         want = g.get("value", True)
+        needles = g["cond"] if isinstance(g["cond"], list) else [g["cond"]]
         for c in f.conds_at(s["bb"]):
-            if c[0] in ("eq",) and g["cond"] in str(c[1]) and c[2] is want:
-                return True, "guard `%s`=%s dominates" % (g["cond"], want)
-            if c[0] in ("variant",) and g["cond"] in ("%s is %s" % (c[1], c[3])):
-                return True, "guard `%s` dominates" % g["cond"]
+            for nd in needles:
+                if c[0] in ("eq",) and nd in str(c[1]) and c[2] is want:
+                    return True, "guard `%s`=%s dominates" % (nd, want)
+                if c[0] in ("variant",) and nd in ("%s is %s" % (c[1], c[3])):
+                    return True, "guard `%s` dominates" % nd
         return False, "listed guard `%s`=%s no longer dominates this site" % (g["cond"], want)
     if "dom_call" in g:
         for c in f.calls():
